@@ -127,7 +127,27 @@ struct char_traits;
 /// Specializations of char_traits for type char.
 /// \ingroup string
 template <>
-struct char_traits<char> : detail::char_traits_base<char, int, -1> { };
+struct char_traits<char> : detail::char_traits_base<char, int, -1> {
+    /// Like std::char_traits<char>, characters are ordered by their unsigned char value.
+    static constexpr auto lt(char a, char b) noexcept -> bool
+    {
+        return static_cast<unsigned char>(a) < static_cast<unsigned char>(b);
+    }
+
+    static constexpr auto compare(char const* lhs, char const* rhs, size_t count) -> int
+    {
+        for (size_t i = 0; i < count; ++i) {
+            if (lt(lhs[i], rhs[i])) {
+                return -1;
+            }
+            if (lt(rhs[i], lhs[i])) {
+                return 1;
+            }
+        }
+
+        return 0;
+    }
+};
 
 /// Specializations of char_traits for type wchar_t.
 /// \ingroup string
